@@ -134,13 +134,13 @@ class DocGen:
             if depth > 3:
                 return tail
             if items is None:
-                out += [[1, "a"], [1, 1], [[1], [1]], [1, 2, 3, 4], [1, "a", None]]
+                out += [[1, "a"], [1], [1, "a", 2], [1, 1], [[1], [1]], [1, 2, 3, 4], [1, 2, 3, 4, 5], [1, "a", None]]
             elif isinstance(items, dict):
                 c = self.cands(items, depth + 1)
                 good = self.valid_of(items, c)
                 if good:
                     g = good[0]
-                    out += [[g], [g, g], [g, g, g, g]]
+                    out += [[g], [g, g], [g, g, g], [g, g, g, g], [g, g, g, g, g]]
                     if len(good) > 1:
                         out += [[good[0], good[1]], [good[1], good[0], good[1]]]
                     for x in c[:6]:
